@@ -10,3 +10,32 @@ Proof. exact o_solvable_spec. Qed.
 Theorem C13_valid_oracle : forall u P S,
   o_valid u P S = true <-> valid (table_provider u) P S (exempt P S).
 Proof. exact o_valid_spec. Qed.
+
+(* ---- the in-flight protocol of the candidates cache, over all schedules,
+        cancellations and reuse (model: Async/CacheProto.v) ---- *)
+From Resolvo Require Import Async.CacheProto.
+
+(* invariant of every reachable state: each in-flight marker has exactly one live owner *)
+Theorem C13_protocol_invariant : forall es s,
+  prun drop_fixed p0 es = Some s -> PInv s.
+Proof. intros es s H. exact (prun_inv es p0 s pinv_p0 H). Qed.
+
+(* no request ever waits on something that cannot complete *)
+Theorem C13_no_orphan_waiter : forall es s,
+  prun drop_fixed p0 es = Some s ->
+  forall t, In t (tasks s) -> t_st t = TWaiting ->
+  In (t_name t) (cached s) \/ exists o, In o (tasks s) /\ t_name o = t_name t /\ t_st o = TFetching.
+Proof. exact no_orphan_waiter. Qed.
+
+(* progress: an unfinished request always has an enabled step (poll or provider answer) *)
+Theorem C13_no_deadlock : forall es s,
+  prun drop_fixed p0 es = Some s ->
+  (exists t, In t (tasks s) /\ t_st t <> TDone) -> enabled s.
+Proof. exact no_deadlock. Qed.
+
+(* the protocol as it was before the repair deadlocks after a cancelled solve (finding F5) *)
+Theorem C13_pre_fix_deadlock :
+  exists s, prun drop_pre_fix p0 [PNext (mkProblem [] [] []); PSpawn 7; PRun 0; PDrop;
+                                  PNext (mkProblem [] [] []); PSpawn 7; PRun 0] = Some s /\
+            tasks s = [mkTask 7 TWaiting] /\ run_task s 0 = None /\ answer s 7 = None.
+Proof. exact pre_fix_deadlock. Qed.
